@@ -888,6 +888,141 @@ theorem uniform_value_for_monotone_on_doubles (erfinv ndtr : Dbl → Dbl)
   exact finishD_monotone true ignore places L U _ _ a b
     (rawUniformD_monotone L U _ _ hL hU hLU hw (hndtr _ _ hg)) ha hb
 
+/-- `LogGaussianPrior.value_for` on doubles, end to end: non-decreasing in the unit value on `[0, 1]` given
+that scipy's `erfinv` (on `[-1, 1]`) and numpy's `exp` are non-decreasing. -/
+theorem logGaussian_value_for_monotone_on_doubles (erfinv exp : Dbl → Dbl)
+    (herf : ∀ x y, Dbl.neg' Dbl.one ≤ x → x ≤ y → y ≤ Dbl.one → erfinv x ≤ erfinv y)
+    (hexp : ∀ x y, x ≤ y → exp x ≤ exp y)
+    (mean sigma L U : Dbl) (hm : mean.isFinite = true)
+    (hc : (Dbl.mul sigma Dbl.sqrt2).isFinite = true) (hc0 : 0 < (Dbl.mul sigma Dbl.sqrt2).mag)
+    (hcn : (Dbl.mul sigma Dbl.sqrt2).neg = false)
+    (ignore : Bool) (places : Nat) (u v a b : Dbl) (hu0 : Dbl.zero ≤ u) (huv : u ≤ v) (hv1 : v ≤ Dbl.one)
+    (ha : finishD false ignore places L U (exp (rawGaussianD mean sigma (erfinv (argD u)))) = .ok a)
+    (hb : finishD false ignore places L U (exp (rawGaussianD mean sigma (erfinv (argD v)))) = .ok b) :
+    a ≤ b := by
+  obtain ⟨h1, h2, h3⟩ := argD_monotone u v hu0 huv hv1
+  have hz := herf _ _ h2 h1 h3
+  exact finishD_monotone false ignore places L U _ _ a b
+    (hexp _ _ (rawGaussianD_monotone mean sigma _ _ hm hc hc0 hcn hz)) ha hb
+
+/-- `LogUniformPrior.value_for` on doubles, end to end (`… → ndtr → t * scale + shift → 10 ** x → gate`,
+`scale = log10(U / L)`, `shift = log10 L` as numpy computed them in the constructor): non-decreasing in the
+unit value on `[0, 1]` for a finite positive scale and a finite shift, given that `erfinv`, `ndtr` and
+`10 ** x` are non-decreasing. (A ratio `U / L` that overflows makes the scale infinite - known finding
+`C02-loguniform-ratio-overflow` - and is excluded by `hs`.) -/
+theorem logUniform_value_for_monotone_on_doubles (erfinv ndtr pow10 : Dbl → Dbl)
+    (herf : ∀ x y, Dbl.neg' Dbl.one ≤ x → x ≤ y → y ≤ Dbl.one → erfinv x ≤ erfinv y)
+    (hndtr : ∀ x y, x ≤ y → ndtr x ≤ ndtr y) (hpow : ∀ x y, x ≤ y → pow10 x ≤ pow10 y)
+    (scale shift L U : Dbl) (hs : scale.isFinite = true) (hs0 : 0 < scale.mag) (hsn : scale.neg = false)
+    (hsh : shift.isFinite = true)
+    (ignore : Bool) (places : Nat) (u v a b : Dbl) (hu0 : Dbl.zero ≤ u) (huv : u ≤ v) (hv1 : v ≤ Dbl.one)
+    (ha : finishD false ignore places L U (pow10 (Dbl.add (Dbl.mul
+      (ndtr (rawGaussianD Dbl.zero Dbl.one (erfinv (argD u)))) scale) shift)) = .ok a)
+    (hb : finishD false ignore places L U (pow10 (Dbl.add (Dbl.mul
+      (ndtr (rawGaussianD Dbl.zero Dbl.one (erfinv (argD v)))) scale) shift)) = .ok b) : a ≤ b := by
+  obtain ⟨h1, h2, h3⟩ := argD_monotone u v hu0 huv hv1
+  have hz := herf _ _ h2 h1 h3
+  have hg := rawGaussianD_monotone Dbl.zero Dbl.one _ _ (by decide +kernel) (by decide +kernel)
+    (by decide +kernel) (by decide +kernel) hz
+  have hm := Dbl.mul_pos_right_mono scale _ _ ((Dbl.finite_iff _).mp hs) hs0 hsn (hndtr _ _ hg)
+  exact finishD_monotone false ignore places L U _ _ a b
+    (hpow _ _ (Dbl.add_mono_left _ _ shift hsh hm)) ha hb
+
+/-- Conversion to the nearest double fixes the doubles: the exact value of a finite double converts back to
+its own bit pattern (so `x + 0`, `x * 1`, … introduce no error in the model, as in IEEE arithmetic). -/
+theorem double_conversion_fixes_doubles (m : Nat) (h : m < infMag) :
+    nearestBits (Dbl.magVal m) (2 ^ 1074) = m :=
+  Dbl.nearestBits_magVal m h
+
+/-- The lower limit never trips for the uniform prior on doubles: for every `t ≥ 0` (the range of `ndtr`)
+`t * (U - L) + L ≥ L`. -/
+theorem uniform_lower_end_in_limits_on_doubles (L U t : Dbl) (hL : L.isFinite = true)
+    (hU : U.isFinite = true) (hLU : L < U) (hw : (Dbl.sub U L).isFinite = true) (ht : Dbl.zero ≤ t) :
+    L ≤ rawUniformD t L U := by
+  obtain ⟨wn, w0⟩ := Dbl.sub_pos L U hL hU hLU
+  have hwm := (Dbl.finite_iff _).mp hw
+  have h1 := Dbl.mul_pos_right_mono _ Dbl.zero t hwm w0 wn ht
+  have e : Dbl.mul Dbl.zero (Dbl.sub U L) = Dbl.zero := by
+    rw [Dbl.mul_pos_right_form _ Dbl.zero hwm w0 wn (by decide +kernel)]
+    have := (Dbl.mulMag_spec (Dbl.sub U L).mag).2.1
+    show (⟨false, Dbl.mulMag (Dbl.sub U L).mag 0⟩ : Dbl) = ⟨false, 0⟩
+    rw [this]
+  rw [e] at h1
+  have h2 := Dbl.add_mono_left _ _ L hL h1
+  have k : (Dbl.add Dbl.zero L).key = L.key := by
+    rw [Dbl.add_comm]; exact Dbl.add_zero_key L hL
+  have nL : L.isNaN = false := (Dbl.isNaN_false_iff L).mpr (by have := (Dbl.finite_iff L).mp hL; omega)
+  have h3 : L ≤ Dbl.add Dbl.zero L := ⟨nL, h2.1, by rw [k]; exact Int.le_refl _⟩
+  exact Dbl.le_trans _ _ _ h3 h2
+
+/-- `-534.9102058632687`, `-236.83708131075005` -/
+def eL : Dbl := Dbl.ofBits 0xC080B7481A02FAEF
+def eU : Dbl := Dbl.ofBits 0xC06D9AC95EBEB875
+
+/-- The upper end is different (unchanged code, recorded as known finding `C16-prior-unit-end-outside-limits`, root
+cause here): at `t = 1` the arithmetic `1 * (U - L) + L` can land one ulp above `U`, so
+`UniformPrior(-534.9102058632687, -236.83708131075005).value_for(1.0)` raises the limit exception instead of
+returning the upper limit - evaluated in the exact IEEE model. The property allows the exception; an
+in-limits theorem for the upper end on doubles is therefore not available. -/
+theorem uniform_upper_end_limit_witness :
+    eL < eU ∧ (Dbl.sub eU eL).isFinite = true ∧ eU < rawUniformD Dbl.one eL eU ∧
+    finishD true false 14 eL eU (rawUniformD Dbl.one eL eU) = .limit := by
+  decide +kernel
+
+/-- `Prior.random` on doubles: the unit value it maps (`random.uniform(max(lo, a), min(hi, b))`, i.e.
+`x + (y - x) * r` in IEEE arithmetic) is never below the requested lower unit limit `lo` nor below the
+prior's lower unit limit `a`, for unit limits and requested interval inside `[0, 1]` that meet, and every
+`r ∈ [0, 1]`. (The upper end is not guaranteed by `random.uniform`, as its documentation says.) -/
+theorem random_unit_not_below_lower_on_doubles (lo hi a b r : Dbl)
+    (h0lo : Dbl.zero ≤ lo) (h0a : Dbl.zero ≤ a) (hb1 : b ≤ Dbl.one) (hhi1 : hi ≤ Dbl.one)
+    (hab : a ≤ b) (hlohi : lo ≤ hi) (hlob : lo ≤ b) (hahi : a ≤ hi)
+    (hr0 : Dbl.zero ≤ r) (hr1 : r ≤ Dbl.one) :
+    lo ≤ randomUnitD lo hi a b r ∧ a ≤ randomUnitD lo hi a b r := by
+  have f0 : Dbl.zero.isFinite = true := by decide +kernel
+  have f1 : Dbl.one.isFinite = true := by decide +kernel
+  have e1 : Dbl.add Dbl.one (Dbl.neg' Dbl.zero) = Dbl.one := by decide +kernel
+  have hr := Dbl.finite_of_between r _ _ hr0 hr1 f0 f1
+  -- the core: for x ≤ y inside [0, 1]
+  have core : ∀ x y : Dbl, Dbl.zero ≤ x → x ≤ y → y ≤ Dbl.one →
+      x ≤ Dbl.add x (Dbl.mul (Dbl.sub y x) r) := by
+    intro x y h0x hxy hy1
+    have fx := Dbl.finite_of_between x _ _ h0x (Dbl.le_trans _ _ _ hxy hy1) f0 f1
+    have d0 := Dbl.sub_nonneg x y fx hxy
+    have d1 : Dbl.sub y x ≤ Dbl.one := by
+      have s1 := Dbl.add_mono_left y Dbl.one (Dbl.neg' x) fx hy1
+      have s2 := Dbl.add_mono_right Dbl.one _ _ f1 (Dbl.neg_anti _ _ h0x)
+      rw [e1] at s2
+      exact Dbl.le_trans _ _ _ s1 s2
+    exact Dbl.uniform_ge_lower x y r fx hxy (Dbl.finite_of_between _ _ _ d0 d1 f0 f1) hr hr0
+  have ha := hab.1
+  have hl := hlohi.1
+  unfold randomUnitD randomUnit
+  simp only [GT.gt]
+  have conv : ∀ x y : Dbl, (x + (y - x) * r : Dbl) = Dbl.add x (Dbl.mul (Dbl.sub y x) r) := fun _ _ => rfl
+  rw [conv]
+  by_cases c1 : lo < a <;> by_cases c2 : b < hi <;> simp only [c1, c2, if_true, if_false]
+  · have h := core a b h0a hab hb1
+    exact ⟨Dbl.le_trans _ _ _ ⟨c1.1, c1.2.1, by have := c1.2.2; omega⟩ h, h⟩
+  · have h := core a hi h0a hahi hhi1
+    exact ⟨Dbl.le_trans _ _ _ ⟨c1.1, c1.2.1, by have := c1.2.2; omega⟩ h, h⟩
+  · have h := core lo b h0lo hlob hb1
+    have hal : a ≤ lo := ⟨ha, hl, by
+      have : ¬ (lo.key < a.key) := fun hh => c1 ⟨hl, ha, hh⟩
+      omega⟩
+    exact ⟨h, Dbl.le_trans _ _ _ hal h⟩
+  · have h := core lo hi h0lo hlohi hhi1
+    have hal : a ≤ lo := ⟨ha, hl, by
+      have : ¬ (lo.key < a.key) := fun hh => c1 ⟨hl, ha, hh⟩
+      omega⟩
+    exact ⟨h, Dbl.le_trans _ _ _ hal h⟩
+
+/-- non-vacuity: unit limits of a Gaussian prior 2σ .. 3σ above the mean, `r = 0.75` -/
+example : Dbl.ofBits 0x3FEF4672B7A7B1E0 ≤ randomUnitD Dbl.zero Dbl.one (Dbl.ofBits 0x3FEF4672B7A7B1E0)
+    (Dbl.ofBits 0x3FEFF4F0E2A9C1B4) (Dbl.ofBits 0x3FE8000000000000) :=
+  (random_unit_not_below_lower_on_doubles _ _ _ _ _ (by decide +kernel) (by decide +kernel) (by decide +kernel)
+    (by decide +kernel) (by decide +kernel) (by decide +kernel) (by decide +kernel) (by decide +kernel)
+    (by decide +kernel) (by decide +kernel)).2
+
 /-- the arithmetic the model computes is Python's: `1 - 2.0 * (1.0 - 0.3)`, `0.25 * (0.7 - 0.2) + 0.2`,
 `1.5 + (2.0 * sqrt(2) * 0.75)` -/
 example : argD (Dbl.ofBits 0x3FD3333333333333) = Dbl.ofBits 0xBFD9999999999998 := by decide +kernel
